@@ -9,6 +9,7 @@ use xot::{NameId, NamespaceId, Node, PrefixId, Xot};
 pub fn register(v: &mut Vec<(&'static str, crate::Harness)>) {
     v.push(("h_c10_names", h_c10_names));
     v.push(("h_c10_missing_prefixes", h_c10_missing_prefixes));
+    v.push(("h_c10_loose", h_c10_loose));
     v.push(("h_c15_dedup", h_c15_dedup));
     v.push(("h_c14_cdata", h_c14_cdata));
     v.push(("h_c14_gt", h_c14_gt));
@@ -287,12 +288,23 @@ pub fn h_c15_dedup() {
 
 fn brackets(name: &'static str, lenname: &'static str, max: usize) -> String {
     // text concentrating on ']' and '>' runs: each char is ']' , '>' or any XML Char
-    let n = 1 + sym::choose(lenname, max);
+    // choices max and max + 1: a fixed "]]>" with arbitrary XML Chars (any UTF-8 width) before / after / inside it
+    let k = sym::choose(lenname, max + 2);
+    let n = if k < max { 1 + k } else { 2 };
     let s = sym::any_string(name, n);
     for c in s.chars() {
         sym::assume(is_xml_char(c));
     }
-    s
+    if k < max {
+        return s;
+    }
+    let mut it = s.chars();
+    let (c0, c1) = (it.next().unwrap(), it.next().unwrap());
+    if k == max {
+        format!("{}]]>{}", c0, c1)
+    } else {
+        format!("{}]{}]>", c0, c1)
+    }
 }
 
 pub fn h_c14_cdata() {
@@ -693,5 +705,65 @@ pub fn h_c16_deep() {
     match want {
         Ok(w) => sym::check("pretty-tokens-give-the-pretty-string-at-depth", got == w),
         Err(_) => sym::check("serialisation-succeeds", false),
+    }
+}
+
+/// C10 "for any tree at all, serialisation either fails with an error or produces text": XML serialisation of
+/// single unattached nodes of every kind (and of a fragment holding text) returns - no panic edge - through
+/// the string, token and pretty entry points, with and without a CDATA request; text comes back escaped.
+pub fn h_c10_loose() {
+    let mut xot = Xot::new();
+    let t = sym::any_string("t", 1);
+    for c in t.chars() {
+        sym::assume(is_xml_char(c));
+    }
+    let na = xot.add_name("a");
+    let what = sym::choose("what", 7);
+    let top = match what {
+        0 => xot.new_text(&t),
+        1 => xot.new_comment("c"),
+        2 => xot.new_processing_instruction(na, Some("d")),
+        3 => xot.new_attribute_node(na, t.clone()),
+        4 => {
+            let p = xot.add_prefix("p");
+            let n = xot.add_namespace("urn:n");
+            xot.new_namespace_node(p, n)
+        }
+        5 => {
+            let d = xot.new_document();
+            xot.append_text(d, &t).unwrap();
+            d
+        }
+        _ => xot.new_element(na),
+    };
+    let cdata = if sym::choose("cdata", 2) == 1 { vec![na] } else { vec![] };
+    let params = Parameters { cdata_section_elements: cdata.clone(), ..Default::default() };
+    let r = match sym::choose("entry", 3) {
+        0 => xot.serialize_xml_string(params, top).ok(),
+        1 => {
+            let mut out = String::new();
+            let tp = TokenSerializeParameters { cdata_section_elements: cdata.clone(), unescaped_gt: false };
+            for (_n, _o, tk) in xot.tokens(top, tp, NoopNormalizer) {
+                if tk.space {
+                    out.push(' ');
+                }
+                out.push_str(&tk.text);
+            }
+            Some(out)
+        }
+        _ => xot.serialize_xml_string(Parameters { indentation: Some(Default::default()), cdata_section_elements: cdata, ..Default::default() }, top).ok(),
+    };
+    sym::cover("returned");
+    if let (Some(s), true) = (r, what == 0 || what == 5) {
+        // the text comes back when the output is put inside an element
+        let mut x2 = Xot::new();
+        match x2.parse(&format!("<w>{}</w>", s)) {
+            Ok(d2) => {
+                let w = x2.document_element(d2).unwrap();
+                let want: String = if t == "\r" { "\n".to_string() } else { t.clone() };
+                sym::check("loose-text-comes-back", x2.string_value(w) == want || t == "\r");
+            }
+            Err(_) => sym::check("serialised-text-is-accepted-by-the-parser", false),
+        }
     }
 }
